@@ -302,6 +302,26 @@ Definition shadow_stat (ra rb : out) : out :=
             else ra
   end.
 
+(* shadowbackend/client.go over any two clients *)
+Section Shadow.
+  Context {SA SB : Type} (stepA : SA -> op -> SA * out) (stepB : SB -> op -> SB * out).
+  Definition shadow_step (ab : SA * SB) (o : op) : (SA * SB) * out :=
+    let '(a, b) := ab in
+    match o with
+    | Upload n v =>                                          (* :248: active first, then shadow *)
+        let '(a', ra) := stepA a o in
+        match ra with
+        | OOk => let '(b', rb) := stepB b o in ((a', b'), rb)
+        | _ => ((a', b), ra)
+        end
+    | Download _ | List _ _ _ => let '(a', r) := stepA a o in ((a', b), r)   (* :242, :276: active only *)
+    | Stat _ => let '(_, ra) := stepA a o in let '(_, rb) := stepB b o in (ab, shadow_stat ra rb)
+    | SideUpload false n v => let '(a', r) := stepA a (Upload n v) in ((a', b), r)   (* driver: direct handle *)
+    | SideUpload true n v => let '(b', r) := stepB b (Upload n v) in ((a, b'), r)
+    | RawPut _ _ => (ab, OErr)
+    end.
+End Shadow.
+
 Inductive st := St1 (e : est) | St2 (a b : est).
 Definition init (c : cfg) : st :=
   match c_bk c with Single e => St1 (einit e) | Shadow a b => St2 (einit a) (einit b) end.
@@ -312,20 +332,7 @@ Definition step (c : cfg) (s : st) (o : op) : st * out :=
              | SideUpload _ _ _ => (s, OErr)
              | _ => let '(e', r) := estep c e o in (St1 e', r)
              end
-  | St2 a b =>
-      match o with
-      | Upload n v =>                                          (* :248: active first, then shadow *)
-          let '(a', ra) := estep c a o in
-          match ra with
-          | OOk => let '(b', rb) := estep c b o in (St2 a' b', rb)
-          | _ => (St2 a' b, ra)
-          end
-      | Download _ | List _ _ _ => let '(a', r) := estep c a o in (St2 a' b, r)   (* :242, :276 *)
-      | Stat _ => let '(_, ra) := estep c a o in let '(_, rb) := estep c b o in (s, shadow_stat ra rb)
-      | SideUpload false n v => let '(a', r) := estep c a (Upload n v) in (St2 a' b, r)
-      | SideUpload true n v => let '(b', r) := estep c b (Upload n v) in (St2 a b', r)
-      | RawPut _ _ => (s, OErr)
-      end
+  | St2 a b => let '((a', b'), r) := shadow_step (estep c) (estep c) (a, b) o in (St2 a' b', r)
   end.
 
 Fixpoint run (c : cfg) (s : st) (ops : list op) : st * list out :=
@@ -469,6 +476,18 @@ Definition guard (c : cfg) (ops : list op) : bool :=
   | Single e => guard_e c e ops && no_side ops
   | Shadow a b => guard_e c a ops && guard_e c b ops
   end.
+
+(* the stores of the contract after a history (shadow: one per component; a single client: both equal) *)
+Fixpoint stores_from (sa sb : store) (ops : list op) : store * store :=
+  match ops with
+  | [] => (sa, sb)
+  | Upload n v :: t => stores_from (sset n v sa) (sset n v sb) t
+  | SideUpload false n v :: t => stores_from (sset n v sa) sb t
+  | SideUpload true n v :: t => stores_from sa (sset n v sb) t
+  | _ :: t => stores_from sa sb t
+  end.
+Definition spec_stores (ops : list op) : store * store := stores_from [] [] ops.
+Definition active (c : cfg) : ek := match c_bk c with Single e => e | Shadow a _ => a end.
 
 (* -- the contract evaluated along an observed trace.  Shadow: one store per component. *)
 
